@@ -26,6 +26,9 @@ func main() {
 	params := flag.Bool("params", false, "rename parameters, results and receivers too")
 	gen := flag.Bool("gen", false, "also rewrite generated files (*_gen.go)")
 	suffix := flag.String("suffix", "Zz", "suffix appended to every renamed identifier")
+	noRename := flag.Bool("norename", false, "do not rename (use with -invertif / -swapcmp)")
+	invertIf := flag.Bool("invertif", false, "rewrite every if c {A} else {B} as if !(c) {B} else {A}")
+	swapCmp := flag.Bool("swapcmp", false, "mirror comparisons whose operands have no side effects: a < b becomes b > a, a == b becomes b == a")
 	flag.Parse()
 	if *dir == "" || strings.HasPrefix(*dir, "/repo") {
 		fmt.Fprintln(os.Stderr, "renamelocals: -dir must name a scratch copy")
@@ -57,7 +60,16 @@ func main() {
 			if strings.HasSuffix(name, "_test.go") || (!*gen && strings.HasSuffix(name, "_gen.go")) || !strings.HasPrefix(name, *dir) {
 				continue
 			}
-			n := rename(p, f, *params, *suffix)
+			n := 0
+			if !*noRename {
+				n += rename(p, f, *params, *suffix)
+			}
+			if *invertIf {
+				n += invertIfs(f)
+			}
+			if *swapCmp {
+				n += swapComparisons(p, f)
+			}
 			if n == 0 {
 				continue
 			}
@@ -75,6 +87,57 @@ func main() {
 		}
 	}
 	fmt.Printf("renamelocals: %d identifiers renamed in %d files of %d packages\n", idents, files, len(pkgs))
+}
+
+// invertIfs rewrites if c {A} else {B} (B a plain block, not an else-if) as
+// if !(c) {B} else {A}: the same condition is evaluated once, the same block runs.
+func invertIfs(f *ast.File) int {
+	n := 0
+	ast.Inspect(f, func(nd ast.Node) bool {
+		st, ok := nd.(*ast.IfStmt)
+		if !ok {
+			return true
+		}
+		els, isBlock := st.Else.(*ast.BlockStmt)
+		if !isBlock {
+			return true
+		}
+		cond := st.Cond
+		if u, isNot := cond.(*ast.UnaryExpr); isNot && u.Op == token.NOT {
+			st.Cond = u.X
+		} else {
+			st.Cond = &ast.UnaryExpr{Op: token.NOT, X: &ast.ParenExpr{X: cond}}
+		}
+		st.Body, st.Else = els, st.Body
+		n++
+		return true
+	})
+	return n
+}
+
+// swapComparisons mirrors comparisons one operand of which is a constant (or
+// nil): no evaluation order is involved, a < 3 becomes 3 > a.
+func swapComparisons(p *packages.Package, f *ast.File) int {
+	mirror := map[token.Token]token.Token{token.EQL: token.EQL, token.NEQ: token.NEQ, token.LSS: token.GTR, token.GTR: token.LSS, token.LEQ: token.GEQ, token.GEQ: token.LEQ}
+	isConst := func(e ast.Expr) bool {
+		tv, ok := p.TypesInfo.Types[e]
+		return ok && (tv.Value != nil || tv.IsNil())
+	}
+	n := 0
+	ast.Inspect(f, func(nd ast.Node) bool {
+		b, ok := nd.(*ast.BinaryExpr)
+		if !ok {
+			return true
+		}
+		m, isCmp := mirror[b.Op]
+		if !isCmp || isConst(b.X) == isConst(b.Y) {
+			return true
+		}
+		b.X, b.Y, b.Op = b.Y, b.X, m
+		n++
+		return true
+	})
+	return n
 }
 
 // rename gives every local variable of f a new name and returns the number of
